@@ -527,6 +527,17 @@ class C02(EvalProp):
             x, y, z = (self.rng.choice(pool) for _ in range(3))
             tail = self.rng.choice([(), (("sel", ("idx", 0)),), (("sel", "wild"),)])
             out.append(self.make_case("u", ("q", ("sel", ("name", S("k"))), ("sels", x, y, z)) + tail, nested, {"table": "union-triple"}))
+        # a descendant segment visits a node before its descendants: the member of the node itself comes before the same name found
+        # deeper under a member that sorts earlier (and under array elements), at several depths
+        one = ("i", 1)
+        same = [o_(a=o_(b=one), b=("i", 2)), o_(children=("a", o_(name=S("c1")), o_(name=S("c2"))), name=S("p")), o_(a=o_(z=o_(z=one)), z=("i", 2)),
+                o_(a=("a", o_(n=one), ("a", o_(n=("i", 2)))), n=("i", 3), z=o_(n=("i", 4))), ("a", o_(a=o_(k=one), k=("i", 2)), o_(k=("i", 3))),
+                o_(a=o_(a=o_(a=one, b=("i", 0)), b=("i", 5)), b=("i", 9)), o_(b=o_(a=one), a=("i", 2), c=o_(a=("i", 3)))]
+        for d in same:
+            for nm in ("a", "b", "k", "n", "z", "name"):
+                for q in (("q", ("desc", ("sel", ("name", S(nm))))), ("q", ("desc", ("sel", ("name", S(nm)))), ("desc", ("sel", ("name", S(nm))))),
+                          ("q", ("desc", ("sels", ("name", S("'" + nm + "'")), ("idx", 0))))):
+                    out.append(self.make_case("sn", q, d, {"table": "same-name-deeper"}))
         return out
 
 
@@ -939,6 +950,16 @@ class C14(EvalProp):
             for A in arrs[:15]:
                 for B in arrs[:15]:
                     elems.append(o_(x=A, y=B))
+        # long arrays (8 to 12 elements) mixing integers, the strings that spell them, floats of the same value, booleans and null
+        ints_ = ("a",) + tuple(("i", i) for i in range(1, 10))
+        strs_ = ("a",) + tuple(S(str(i)) for i in range(1, 9))
+        flts_ = ("a",) + tuple(f_(float(i)) for i in range(1, 10))
+        mixed_ = ("a", S("7"), S("x"), S("1"), S("true"), S("null"), S("1.0"), S("-1"), S("0"), S(""), S("12"))
+        misc_ = ("a", ("i", 12), ("b", 1), "null", f_(1.0), ("i", -1), ("i", 0), S("y"), ("i", 7), ("i", 100), ("a", ("i", 7)), o_(k=("i", 7)))
+        longs = [ints_, strs_, flts_, mixed_, misc_, ints_[:9] + (S("9"),), strs_ + (("i", 3),)]
+        for A in longs:
+            for B in longs:
+                elems.append(o_(x=A, y=B))
         doc = o_(list=("a", ("i", 1), S("a"), ("a", ("i", 1))), elems=("a",) + tuple(elems))
         x = ("argt", ("rel", ("sel", ("name", S("x")))))
         y = ("argt", ("rel", ("sel", ("name", S("y")))))
@@ -970,7 +991,8 @@ class C10(EvalProp):
                   "the generated grammar, TestFunction::try_new and the evaluator and keeps exactly the children the RFC keeps. Correspondence through the crate.")
     level_note = "the regex crate is external: modelled on a stated dialect and validated by correspondence; patterns with escapes are the known class D14"
     rule = ("length/count/value over argument kinds x node counts 0/1/2+; match/search over enumerated patterns x subjects; "
-            "non-trivial = RFC keeps at least one element; plus patterns with a literal backslash (four backslashes in the query text) and counted repetitions of Unicode-aware atoms above a thousand on short subjects")
+            "non-trivial = RFC keeps at least one element; plus patterns with a literal backslash (four backslashes in the query text) and counted repetitions of Unicode-aware atoms above a thousand on short subjects; "
+            "patterns outside the modelled dialect (Unicode categories, shorthand classes, flags, lazy quantifiers) are compared with the regex crate applied directly by the harness (kind RX: validates the glue only)")
     n_quick = 6000
 
     def profile(self):
@@ -997,7 +1019,10 @@ class C10(EvalProp):
         HUGE = [".{0,1200}", "[^>]{1,3000}", ".{0,1200}c"]
         pats |= set(BIG)
         IDIOM = [".*b.*", ".*a.*", ".*ab.*", ".*c.*", "a.*", ".*b", ".*\u00e9.*", ".*b.*|x", "(.*b.*)", ".*b.*.*"]
-        pats |= set(IDIOM)
+        # groups at both ends with an alternation between them, and deep nesting of groups and quantifiers
+        GROUPS = ["(a)|(b)", "(ab)|c|(ab)", "(a)+|x(b)", "(a)|(b)*", "(a)(b)", "(a)|b", "(a(b(c)*)*)*", "(a(b(c(a(b(c)*)*)*)*)*)*", "(a(b(c(a(b(c)?)?)?)?)?)?",
+                  "((((((((((a)*)*)*)*)*)*)*)*)*)*", "a(b(c(a(b(c|a)|b)|c)|a)|b)", "(((a((a|b)*c)+b)?c)*a)+", "((((((((((a))))))))))"]
+        pats |= set(IDIOM) | set(GROUPS)
         subs = [""] + ["".join(t) for n in (1, 2, 3) for t in itertools.product("abc", repeat=n)] + ["b\n", "\nb", "xb\ny", "a\nb\nc", "ab\n", "\u00e9\n", "a\u2028b", "a\rb", "a\nb", "a.c", "(a)", "abab", "aab", "bbbb", "a\\", "]", "\r", "\n", "é", "\U0001F600", "ab\U0001F600",
                                                                                                   "f(1)", "max", "f(", "x", "(", ")", "|", "(x", "f(x", "a(b", "a|b", ")x", "y", "()", "ab",
                                                                                                   "a\\b", "\\", "a\\", "\\b", "a/b", "a\\."]
@@ -1006,7 +1031,7 @@ class C10(EvalProp):
         pats = sorted(pats)
         if self.tier == "quick":
             pats = self.rng.sample(pats, 160) + ["^a|b$", "a)(?:b", "a.c", ".", "a|", "", "(a|b)c", "a\\\\.c", "a\\\\", "\\\\(a\\\\)", "[\\\\]]", "a\\nb",
-                                                 "[(]|x", "f[(]|x", "[)]x|y", "[|]", "a[(|)]b|c", "f\\\\(|x", "x|f\\\\(", "\\\\)|a", "(a[(]|b)c", "[(][)]|ab"] + BIG + IDIOM
+                                                 "[(]|x", "f[(]|x", "[)]x|y", "[|]", "a[(|)]b|c", "f\\\\(|x", "x|f\\\\(", "\\\\)|a", "(a[(]|b)c", "[(][)]|ab"] + BIG + IDIOM + GROUPS
         for p in pats:
             for fn in ("match", "search"):
                 q = ("q", ("sel", ("filter", ("atom", ("atest", ("tfn", (fn, ("argt", ("rel",)), ("argl", ("str", S(p))))), 0)))))
@@ -1016,6 +1041,16 @@ class C10(EvalProp):
             for fn in ("match", "search"):
                 q = ("q", ("sel", ("filter", ("atom", ("atest", ("tfn", (fn, ("argt", ("rel",)), ("argl", ("str", S(p))))), 0)))))
                 out.append(self.make_case("t", q, hdoc, {"fn": fn, "pattern": p, "table": "large-repetition"}))
+        # patterns the Coq model of the dialect does not cover (Unicode categories, shorthand classes, flags, non-capturing groups):
+        # the crate's glue against the regex crate applied directly by the harness (kind RX; the model side is not involved)
+        BSL = chr(92)
+        rxp = ["%sp{Lu}?b", "%sP{Nd}?1", "-%sp{Lu}?b", "(%sp{Ll}?)", "%sp{Lu}*", "%sp{Lu}+", "%sp{Lu}{2}", "%sp{L}+%sd", "%sd+", "%sw+", "%ss", "[%sd]+", "a%sp{Lu}{2}", "[%sp{Lu}%sd]?x",
+               "%sp{Lu}?", "%sp{Greek}+", "[^%sp{Lu}]b", "%sP{Lu}?%sp{Lu}"]
+        rxp = [t.replace("%s", BSL) for t in rxp] + ["(?:a|b)c", "a{2}?", "a*?b", "a+?", "[[:alpha:]]+", "(?i)ab", "a|b|", "x*", "(a)|(b)", "(a(b(c(a(b(c)*)*)*)*)*)*"]
+        rsub = ("a",) + tuple(S(x) for x in ["Ab", "b", "ab", "x1", "1", "a-Zb", "-b", "", "ABC", "AB", "A", "a1", "12", "abc", " ", "a b", "aXYb", "x", "Ax", "1x", "\u0391\u0392", "\u00c9b", "\u00e9b",
+                                                "ac", "bc", "aa", "aab", "abcabc", "AB1", "B"]) + (("i", 1), "null")
+        for p in rxp:
+            out.append(Case("rx", "RX", [S(p), rsub], {"pattern": p, "table": "regex-crate-oracle"}))
         # the pattern taken from the document, and non-string arguments
         pd = o_(regex=S("a.c"), vals=("a", S("abc"), S("a.c"), S("ac"), ("i", 3)))
         for fn in ("match", "search"):
@@ -1028,6 +1063,14 @@ class C10(EvalProp):
 
     def extra_cases(self):
         return self.value_fn_cases() + self.regex_cases()
+
+    def judge(self, c, ans):
+        if c.kind == "RX":
+            I = ans.get("I") or ["MISSING"]
+            if I[0] == "OK":
+                return Verdict("ok", nontrivial=True, key=sx_key(c))
+            return Verdict("violation", detail="match/search of the crate differ from the regex crate applied directly on pattern %r: %r" % (c.meta.get("pattern"), I), nontrivial=True, key=sx_key(c))
+        return EvalProp.judge(self, c, ans)
 
     def value_fn_cases(self):
         vals = V_ALL
@@ -1310,6 +1353,18 @@ class C07(ParseProp):
                  "$[?@.a==1 &&]", "$[?@.a & @.b]", "$[?@.a | @.b]", "$[?!]", "$[?()]", "$[?(@.a]", "$[?@.a)]", "$.1", "$.-a", "$.a-b", "$['a',]", "$[,'a']", "$[*,]",
                  "$[?@.a==TRUE]", "$[?@.a==Null]", "$[?@.a==1.]", "$[?@.a==.5]", "$[?@.a==1e]", "$[?@.a==+1]", "$[?@.a==01]", "$[?@.a==0x10]", "$[?length (@.a)==1]",
                  "$[?Length(@.a)==1]", "$[?_f(@.a)]", "$[?1f(@.a)]", "$.a.\u0000", "$['\u0000']", "$['\u001f']", "$[\"\u0007\"]", "$[?@.a=='\u0001']", "$. a", "$.. a", "$..\ta"]
+        vfn = ["length(@.a)", "count(@.*)", "value(@.a)", "length(value(@.a))"]
+        lfn = ["match(@.a, 'x.')", "search(@.a, 'y')", "match(value(@.a), 'x')"]
+        for op in ("==", "!=", "<", "<=", ">", ">="):
+            for a in vfn + lfn:
+                for b in vfn + lfn:
+                    if a in lfn or b in lfn:
+                        fixed.append("$[?%s %s %s]" % (a, op, b))
+                        fixed.append("$[?@.b == 1 && %s %s %s]" % (a, op, b))
+            for a in lfn:
+                fixed += ["$[?%s %s true]" % (a, op), "$[?1 %s %s]" % (op, a), "$[?@.a %s %s]" % (op, a), "$[?(%s) %s 1]" % (a, op)]
+        for vf in vfn:
+            fixed += ["$[?(%s)]" % vf, "$[?!(%s)]" % vf, "$[?@.b && (%s)]" % vf, "$[?(@.b || %s)]" % vf, "$[?@[?(%s)]]" % vf, "$[?((%s))]" % vf, "$[?%s && @.b]" % vf, "$[?@.b || %s]" % vf]
         for j, text in enumerate(fixed):
             out.append(self.mk("f%d" % j, text, {"kind": "fixed"}))
         out.extend(self.template_cases())
@@ -1760,6 +1815,10 @@ class C12(PropCheck):
                 d = gh.add_decoys(d, ("q",) + tuple(spelled))
             out.append(Case("e%d" % k, "E2E", [S(text), d], {"entry": True, "query": text}))
             k += 1
+        dn = o_(a=("a", S("x"), S("y"), o_(**{"0": ("i", 5)})), **{"1": S("one"), "0": ("a", ("i", 1), ("i", 2))})
+        for j, text in enumerate(["$[1]", "$['1']", "$.a['0']", "$.a[0]", "$['a']['1']", "$['0'][0]", "$[0][0]", "$['0']['0']", "$.a[2]['0']", "$.a[2][0]", "$['a'][2]['0']", "$[0]", "$['0']"]):
+            out.append(Case("ed%d" % j, "E2E", [S(text), dn], {"entry": True, "query": text}))
+            out.append(Case("eda%d" % j, "E2E", [S(text), ("a", S("zero"), dn, ("a", ("i", 9)))], {"entry": True, "query": text}))
         for c in neg_index_path_cases(self.rng, n * 2, "en"):
             out.append(Case(c.id, "E2E", list(c.impl[1]), {"entry": True, "query": c.meta["query"]}))
         return out
